@@ -69,7 +69,7 @@ class ProofFacts:
             return False
         for a in alts(ab[0]):
             a = core(a)
-            if const_int(a) == 0 or a[0] == 'mu':
+            if is_zero(a) or a[0] == 'mu':
                 continue
             return False
         return True
@@ -89,6 +89,8 @@ class ProofFacts:
         if m[0] != 'keccak' or m[1][0] != 'concat':
             return False, 'digest is not keccak256 of a concatenation'
         parts = [core(x) for x in m[1][1]]
+        # an empty Bytes::new() the parts are appended to contributes nothing
+        parts = [x for x in parts if not (x[0] == 'call' and x[1].endswith('soroban_sdk::Bytes::new'))]
         if len(parts) != 3:
             return False, 'digest concatenates %d parts, expected 3' % len(parts)
         if not is_sget(parts[0], 'instance', 'DomainSeparator'):
